@@ -161,6 +161,28 @@ func ruleVMBalanceTracking(c *core.Ctx) {
 			}
 			return true
 		})
+		// no part of the funding is skipped, except for the two reasons that mean "not tracked":
+		// the world account and an account without a balance entry
+		if sp.name != "withdrawAlways" {
+			ast.Inspect(d.Decl.Body, func(n ast.Node) bool {
+				br, isB := n.(*ast.BranchStmt)
+				if !isB {
+					return true
+				}
+				okSkip := false
+				for _, f := range astx.FactsAt(info, d.Decl.Body, br.Pos()) {
+					s := types.ExprString(f.Cond)
+					if f.Positive && strings.Contains(s, `== "world"`) {
+						okSkip = true
+					}
+					if !f.Positive && s == "ok" {
+						okSkip = true
+					}
+				}
+				c.Check(okSkip, "FLOW/vm-balances", declKey(d)+":no-part-skipped", pos(c, br), "parts skipped only for world / untracked accounts", "Machine."+sp.name+" skips a funding part for another reason than `world` or an untracked account: the running balance misses that part (for instance a posting from an account to itself), and a later bounded take fails or overdraws")
+				return true
+			})
+		}
 		c.Check(ok, "FLOW/vm-balances", declKey(d)+":tracks", pos(c, d.Decl), sp.what, "Machine."+sp.name+" no longer updates the running balance (m.Balances[account][asset] = old."+sp.op+"(amount)): an account used both without and with a bound in one script is checked against a stale balance and can be overdrawn beyond its allowance")
 	}
 }
